@@ -22,7 +22,7 @@ ESC = ["%41", "%7e", "%7E", "%2F", "%2f", "%2B", "%2b", "%26", "%3D", "%3B", "%3
 CORE = ["a", "f", "F", "4", "g", ".", "/", "?", "#", "@", ":", "&", "=", "+", ";", " ", '"', "%", "é", "\U0001f600",
         "%41", "%2F", "%2b", "%26", "%3D", "%25", "%20", "%C3", "%A9", "%FF", "%e2"]
 
-DELIM = ["a", "1", ":", "/", "?", "#", "[", "]", "@", "%", " ", "\t", "\n", "+", ".", "//", "::1", "v1.x"]
+DELIM = ["a", "1", ":", "/", "?", "#", "[", "]", "@", "%", " ", "\t", "\n", "+", ".", "//", "::1", "v1.x", "é", "\u0662"]
 
 SEG = [".", "..", "", "a", ".a", "a.", "..a", "%2E", "%2e%2E", ".%2E", "b", "a%20b", "a%2Fb", ";p"]
 
